@@ -1046,6 +1046,97 @@ fn corpus() -> Vec<History> {
             steps: vec![call(T0 + 1, 60, add(k, 0, ones(&[50]))), call(T0 + 2, 60, add(k, 0, ones(&[101, 52]))), call(T0 + 3, 60, remove(k, 0, vec![51]))],
         });
     }
+    // ---- mint counts at their boundaries on the flex kinds (a stored row with count 0 IS a
+    // member): 0, 1, 2, u32::MAX everywhere members are supplied; around the whale cap where
+    // one exists; the same address with different counts in one list; zero-count members
+    // in several stages.  (The non-flex kinds ignore the counts; same histories, as controls.)
+    for k in LIST_KINDS {
+        let b: Vec<(u64, u32)> = vec![(100, 0), (101, 1), (102, 2), (103, u32::MAX), (104, 0)];
+        v.push(History {
+            init: init_for(k, b.clone(), 12),
+            steps: vec![
+                call(T0 + 1, 60, add(k, 0, vec![(105, 0), (106, u32::MAX), (107, 1)])),
+                call(T0 + 2, 60, add(k, 0, vec![(100, 0)])),
+                call(T0 + 3, 60, add(k, 0, vec![(104, 7)])),
+                call(T0 + 4, 60, remove(k, 0, vec![100, 105])),
+                call(T0 + 5, 60, add(k, 0, vec![(100, 0), (108, 0)])),
+                call(T0 + 6, 60, remove(k, 0, vec![104, 108, 100])),
+                call(T0 + 7, 60, add(k, 0, vec![(109, 0)])),
+            ],
+        });
+        // only zero-count members
+        v.push(History {
+            init: init_for(k, vec![(100, 0), (101, 0)], 5),
+            steps: vec![call(T0 + 1, 60, add(k, 0, vec![(102, 0)])), call(T0 + 2, 60, remove(k, 0, vec![101])), call(T0 + 3, 60, add(k, 0, vec![(101, 0), (103, 0), (104, 0)]))],
+        });
+        // the same address with different counts in one list: which one is stored?
+        for pair in [vec![(100u64, 0u32), (100, 5)], vec![(100, 5), (100, 0)], vec![(100, 0), (100, 0), (101, 3), (101, 0), (101, u32::MAX)]] {
+            v.push(History {
+                init: init_for(k, pair.clone(), 9),
+                steps: vec![
+                    call(T0 + 1, 60, add(k, 0, vec![(102, 0), (102, 4)])),
+                    call(T0 + 2, 60, add(k, 0, vec![(103, 4), (103, 0)])),
+                    call(T0 + 3, 60, add(k, 0, vec![(100, 9)])),
+                    call(T0 + 4, 60, add(k, 0, vec![(104, 0)])),
+                    call(T0 + 5, 60, remove(k, 0, vec![100])),
+                ],
+            });
+        }
+        // around a whale cap (cap must exceed the member limit)
+        let (limit, cap) = (10u32, 12u32);
+        for c in [0u32, 1, cap - 1, cap, cap + 1, u32::MAX] {
+            let mut i = init_for(k, vec![(100, c), (101, 0)], limit);
+            i.whale = Some(cap);
+            v.push(History {
+                init: i,
+                steps: vec![
+                    call(T0 + 1, 60, add(k, 0, vec![(102, cap + 1), (103, 0), (104, cap)])),
+                    call(T0 + 2, 60, remove(k, 0, vec![103])),
+                ],
+            });
+        }
+    }
+    for k in [Kind::Tiered, Kind::TieredFlex] {
+        // zero-count members in several stages, looked at before, inside and after every stage
+        v.push(History {
+            init: t_init(k, vec![vec![(100, 0), (101, 1)], vec![(100, 0), (102, 0)], vec![(100, 2), (101, 0), (103, u32::MAX)]], 3, 20),
+            steps: vec![
+                call(T0 + 1, 60, add(k, 1, vec![(104, 0), (100, 6), (105, 0), (105, 3)])),
+                call(T0 + 100 * S, 60, add(k, 2, vec![(104, 0)])),
+                call(T0 + 150 * S, 60, remove(k, 1, vec![102])),
+                call(T0 + 200 * S + 1, 60, add(k, 1, vec![(106, 0)])),
+                call(T0 + 250 * S, 60, remove(k, 2, vec![101, 104])),
+                call(T0 + 300 * S + 1, 60, add(k, 2, vec![(101, 0)])),
+                call(T0 + 401 * S, 60, add(k, 0, vec![(107, 0)])),
+            ],
+        });
+        // add_stage with boundary counts, repeats with different counts, and the whale cap
+        for whale in [None, Some(25u32)] {
+            let cap = whale.unwrap_or(25);
+            let mut i = t_init(k, vec![vec![(100, 0)]], 1, 20);
+            i.whale = whale;
+            v.push(History {
+                init: i,
+                steps: vec![
+                    call(T0 + 1, 60, Op::AddStage { stage: stage(1), ms: vec![(100, 0), (101, 0), (101, 4), (102, 4), (102, 0), (103, cap - 1), (104, cap)] }),
+                    call(T0 + 2, 60, Op::AddStage { stage: stage(2), ms: vec![(100, 1), (105, cap + 1)] }),
+                    call(T0 + 3, 60, Op::AddStage { stage: stage(2), ms: vec![(100, 0), (105, u32::MAX), (106, 0)] }),
+                    call(T0 + 4, 60, Op::AddStage { stage: stage(2), ms: vec![(100, 0), (106, 0), (106, 2)] }),
+                    call(T0 + 5, 60, add(k, 2, vec![(100, 3), (107, 0), (107, 1)])),
+                    call(T0 + 6, 60, remove(k, 2, vec![106])),
+                    call(T0 + 7, 60, Op::RemoveStage(1)),
+                    call(T0 + 8, 60, Op::AddStage { stage: stage(1), ms: vec![(101, 0), (104, 0)] }),
+                ],
+            });
+        }
+        // instantiate: repeats with different counts per stage, whale cap boundaries
+        for c in [24u32, 25, 26] {
+            let mut i = t_init(k, vec![vec![(100, 0), (100, c), (101, c), (101, 0)], vec![(100, 0), (101, 0)]], 2, 20);
+            i.whale = Some(25);
+            v.push(History { init: i, steps: vec![call(T0 + 1, 60, add(k, 0, vec![(101, 9), (102, 0)]))] });
+        }
+    }
+
     // whale cap (flex kinds)
     for k in [Kind::Flex, Kind::TieredFlex] {
         for (whale, cnt) in [(10u32, 1u32), (11, 11), (11, 12), (12, 1)] {
@@ -1325,7 +1416,7 @@ fn population(kind: Kind, n: u64) -> History {
         }
         Kind::Plain | Kind::Flex => {
             let limit = (n + 5) as u32;
-            let mut ms: Vec<(u64, u32)> = ids.iter().map(|a| (*a, (*a % 3 + 1) as u32)).collect();
+            let mut ms: Vec<(u64, u32)> = ids.iter().map(|a| (*a, (*a % 3) as u32)).collect();
             ms.extend([(first, 7), (last, 7), (mid, 7)]);
             let all = ones(&ids);
             let mut all_dup = all.clone();
@@ -1349,7 +1440,7 @@ fn population(kind: Kind, n: u64) -> History {
         }
         Kind::Tiered | Kind::TieredFlex => {
             let limit = (2 * n + 20) as u32;
-            let mut big: Vec<(u64, u32)> = ids.iter().map(|a| (*a, (*a % 3 + 1) as u32)).collect();
+            let mut big: Vec<(u64, u32)> = ids.iter().map(|a| (*a, (*a % 3) as u32)).collect();
             let big_nodup = big.clone();
             big.extend([(first, 7), (last, 7)]);
             History {
@@ -1430,7 +1521,7 @@ fn populations(a: &Args) -> Vec<History> {
 
 fn random_members(rng: &mut Rng, max: u64) -> Vec<(u64, u32)> {
     let n = rng.below(max + 1);
-    (0..n).map(|_| (if rng.chance(1, 40) { 50 + rng.below(3) } else { rng.range(100, 109) }, rng.range(1, 4) as u32)).collect()
+    (0..n).map(|_| (if rng.chance(1, 40) { 50 + rng.below(3) } else { rng.range(100, 109) }, *rng.pick(&[0u32, 0, 1, 1, 2, 3, u32::MAX]))).collect()
 }
 
 fn random_history(kind: Kind, rng: &mut Rng, lits: &[u32]) -> History {
